@@ -350,6 +350,9 @@ func (t *Task) exec(fr *frame, in ssa.Instruction) {
 		case *ArrayVal:
 			i := t.checkIndex(idx, x.Index.Type(), c.Const(64, uint64(len(a.E))), x.Pos())
 			t.set(fr, x, a.E[i])
+		case StrVal:
+			i := t.checkIndex(idx, x.Index.Type(), a.Len, x.Pos())
+			t.set(fr, x, a.Arr.Slots[a.Off+i])
 		default:
 			p.unsupported("Index on %T", av)
 		}
@@ -519,7 +522,7 @@ func (p *Path) zero(t types.Type) Value {
 			return FloatVal(0)
 		case types.UnsafePointer:
 			return Ptr{}
-		case types.UntypedNil:
+		case types.UntypedNil, types.Invalid:
 			return nil
 		}
 	case *types.Pointer:
